@@ -59,6 +59,17 @@ class Variable:
     value: str
 
 
+def _quote_if_needed(text: str) -> str:
+    """Return the text as a bare token if it would be read back unchanged, otherwise quote it.
+
+    Empty text, text containing a character not allowed in bare strings, and text which begins
+    with ``/`` (a comment) or ``#`` (a directive) can only be written as a quoted string.
+    """
+    if not text or text[0] in '/#' or any(c in BARE_DISALLOWED for c in text):
+        return f'"{text}"'
+    return text
+
+
 __all__ = ['VarType', 'Material', 'get_parm_type']
 ArgT = TypeVar('ArgT')
 _SHADER_PARAM_TYPES: dict[str, VarType] = {}
@@ -283,15 +294,9 @@ class Material(MutableMapping[str, str]):
 
     def export(self, f: TextIO) -> None:
         """Write the material back to a file."""
-        f.write(self.shader + '\n\t{\n')
+        f.write(_quote_if_needed(self.shader) + '\n\t{\n')
         for param in self._params.values():
-            name = param.name
-            value = param.value
-            if any(c in BARE_DISALLOWED for c in name):
-                name = f'"{name}"'
-            if not value or any(c in BARE_DISALLOWED for c in value):
-                value = f'"{value}"'
-            f.write(f'\t{name} {value}\n')
+            f.write(f'\t{_quote_if_needed(param.name)} {_quote_if_needed(param.value)}\n')
         for block in self.blocks:
             block.serialise(f, start_indent='\t')
         if self.proxies:
